@@ -30,6 +30,7 @@ type c04Scan struct {
 	tracked  map[*types.Var]bool
 	lists    map[*types.Var]bool
 	structs  map[types.Type]bool // implementation structs and embedded base structs
+	parts    map[*types.Var]bool // fields holding the common part (embedded or named struct field)
 	fresh    map[*types.Var][]c04Access
 	writes   map[*types.Var][]c04Access // stores into objects that are not freshly allocated
 	reads    map[*types.Var][]c04Access
@@ -40,6 +41,10 @@ type c04Scan struct {
 	whole    []c04Access // whole-struct overwrites of a published balancer
 	mutGlob  map[*ssa.Global]c04Access
 	cnt      *types.Var // round-robin counter (nil if unresolved)
+	// value-flow context of the current ChooseServer: parameters of same-module helpers that are
+	// bound to the receiver / to the receiver's list at the calls being followed
+	recvParams map[*ssa.Parameter]bool
+	listParams map[*ssa.Parameter]bool
 }
 
 func c04Deref(t types.Type) types.Type {
@@ -211,15 +216,16 @@ func c04ModuleFuncs(prog *ssa.Program) []*ssa.Function {
 
 func c04SSA(c *core.Ctx, info *c04Info) {
 	prog, _ := c.Prog.SSA()
-	s := &c04Scan{c: c, info: info, tracked: map[*types.Var]bool{}, lists: map[*types.Var]bool{}, structs: map[types.Type]bool{},
+	s := &c04Scan{c: c, info: info, tracked: map[*types.Var]bool{}, lists: map[*types.Var]bool{}, structs: map[types.Type]bool{}, parts: map[*types.Var]bool{},
 		fresh: map[*types.Var][]c04Access{}, writes: map[*types.Var][]c04Access{}, reads: map[*types.Var][]c04Access{},
 		atomics: map[*types.Var][]c04Access{}, escapes: map[*types.Var][]c04Access{}, mutGlob: map[*ssa.Global]c04Access{}}
 	for _, im := range info.impls {
 		s.structs[im.named] = true
 		for _, f := range im.fields {
 			s.tracked[f] = true
-			if f.Embedded() {
+			if _, isStruct := c04Deref(f.Type()).Underlying().(*types.Struct); isStruct && (f.Embedded() || c04HasList(c04Deref(f.Type()), info.listType, 0)) {
 				s.structs[c04Deref(f.Type())] = true
+				s.parts[f] = true
 			}
 		}
 		s.lists[im.list] = true
@@ -294,7 +300,7 @@ func (s *c04Scan) classify(fn *ssa.Function, fa *ssa.FieldAddr, fld *types.Var) 
 			// address of a nested field: classified on its own
 			if x.X != fa {
 				s.escapes[fld] = append(s.escapes[fld], c04Access{fn, x, "address used"})
-			} else if !fld.Embedded() && !s.tracked[c04FieldOf(x.X.Type(), x.Field)] {
+			} else if !fld.Embedded() && !s.parts[fld] && !s.tracked[c04FieldOf(x.X.Type(), x.Field)] {
 				// field of a struct-typed field (e.g. atomic.Uint64's inner value): treat as access
 				s.escapes[fld] = append(s.escapes[fld], c04Access{fn, x, "inner field addressed"})
 			}
@@ -327,7 +333,7 @@ func (s *c04Scan) classify(fn *ssa.Function, fa *ssa.FieldAddr, fld *types.Var) 
 			callee := cc.StaticCallee()
 			if pkg == "sync/atomic" && first == fa {
 				s.atomics[fld] = append(s.atomics[fld], c04Access{fn, x, name})
-			} else if fld.Embedded() && callee != nil && callee.Blocks != nil && callee.Pkg != nil && strings.HasPrefix(callee.Pkg.Pkg.Path(), load.ModulePath) && c04OnlyFieldUse(callee, cc.Args, fa) {
+			} else if (fld.Embedded() || s.parts[fld]) && callee != nil && callee.Blocks != nil && callee.Pkg != nil && strings.HasPrefix(callee.Pkg.Pkg.Path(), load.ModulePath) && c04OnlyFieldUse(callee, cc.Args, fa) {
 				// `lb.empty()` with empty declared on the embedded base: the callee's accesses to
 				// the base's fields are audited by this same scan (they are FieldAddr on its
 				// parameter); the parameter itself is only used to address fields
@@ -425,9 +431,17 @@ func (s *c04Scan) listValue(fn *ssa.Function, v ssa.Value, seen map[ssa.Value]bo
 			}
 		case ssa.CallInstruction:
 			pkg, name := c04CalleePkg(x.Common())
+			callee := x.Common().StaticCallee()
 			switch {
 			case pkg == "builtin" && (name == "len" || name == "cap"):
 			case pkg == "fmt" || pkg == "log" || pkg == Mod+"pkg/logger":
+			case !x.Common().IsInvoke() && callee != nil && callee.Blocks != nil && callee.Pkg != nil && strings.HasPrefix(callee.Pkg.Pkg.Path(), load.ModulePath):
+				// a same-module helper (pickUniform(lb.Servers)): audit what it does with the list
+				for i, a := range x.Common().Args {
+					if a == v && i < len(callee.Params) {
+						s.listValue(callee, callee.Params[i], seen)
+					}
+				}
 			default:
 				bad(x, "the server list is handed to "+pkg+"."+name+", which may reorder or modify the shared list")
 			}
@@ -767,7 +781,12 @@ func (s *c04Scan) isRecvList(fn *ssa.Function, im *c04Impl, v ssa.Value, seen ma
 		return false
 	}
 	recv := fn.Params[0]
+	if s.recvParams != nil && !s.recvParams[recv] {
+		recv = nil // inside a helper whose first parameter is not the balancer
+	}
 	switch x := v.(type) {
+	case *ssa.Parameter:
+		return s.listParams[x]
 	case *ssa.UnOp:
 		if x.Op != token.MUL {
 			return false
@@ -795,6 +814,9 @@ func (s *c04Scan) isRecvList(fn *ssa.Function, im *c04Impl, v ssa.Value, seen ma
 // c04IsRecv: v is the receiver parameter, or a load of the cell the receiver was spilled to
 // because a closure captures it (the cell is only ever assigned the parameter).
 func c04IsRecv(v ssa.Value, recv *ssa.Parameter) bool {
+	if recv == nil {
+		return false
+	}
 	if v == ssa.Value(recv) {
 		return true
 	}
@@ -850,13 +872,60 @@ func (s *c04Scan) elements(prog *ssa.Program) {
 		cons := im.cons + "|returns nil or an element of its list"
 		rets, elems, nils := 0, 0, 0
 		var badPos token.Pos
-		var classify func(v ssa.Value, seen map[ssa.Value]bool) bool
-		classify = func(v ssa.Value, seen map[ssa.Value]bool) bool {
+		s.recvParams = map[*ssa.Parameter]bool{}
+		s.listParams = map[*ssa.Parameter]bool{}
+		if len(fn.Params) > 0 {
+			s.recvParams[fn.Params[0]] = true
+		}
+		depth := 0
+		var classifyIn func(fn *ssa.Function, v ssa.Value, seen map[ssa.Value]bool) bool
+		// follow: the value is result idx of a call to a same-module helper; every return of the
+		// helper must qualify, with its parameters bound to the receiver / the receiver's list
+		follow := func(cur *ssa.Function, call *ssa.Call, idx int, seen map[ssa.Value]bool) bool {
+			callee := call.Call.StaticCallee()
+			if call.Call.IsInvoke() || callee == nil || callee.Blocks == nil || callee.Pkg == nil || !strings.HasPrefix(callee.Pkg.Pkg.Path(), load.ModulePath) || depth >= 3 {
+				return false
+			}
+			for i, a := range call.Call.Args {
+				if i >= len(callee.Params) {
+					break
+				}
+				if len(cur.Params) > 0 && s.recvParams[cur.Params[0]] && c04IsRecv(a, cur.Params[0]) {
+					s.recvParams[callee.Params[i]] = true
+				}
+				if s.isRecvList(cur, im, a, map[ssa.Value]bool{}) {
+					s.listParams[callee.Params[i]] = true
+				}
+			}
+			depth++
+			defer func() { depth-- }()
+			n := 0
+			for _, b := range callee.Blocks {
+				for _, ins := range b.Instrs {
+					r, ok := ins.(*ssa.Return)
+					if !ok {
+						continue
+					}
+					n++
+					if idx >= len(r.Results) || !classifyIn(callee, r.Results[idx], seen) {
+						return false
+					}
+				}
+			}
+			return n > 0
+		}
+		classifyIn = func(fn *ssa.Function, v ssa.Value, seen map[ssa.Value]bool) bool {
 			if seen[v] {
 				return true
 			}
 			seen[v] = true
 			switch x := v.(type) {
+			case *ssa.Call:
+				return follow(fn, x, 0, seen)
+			case *ssa.Extract:
+				if call, ok := x.Tuple.(*ssa.Call); ok {
+					return follow(fn, call, x.Index, seen)
+				}
 			case *ssa.Const:
 				if x.IsNil() {
 					nils++
@@ -864,7 +933,7 @@ func (s *c04Scan) elements(prog *ssa.Program) {
 				}
 			case *ssa.Phi:
 				for _, e := range x.Edges {
-					if !classify(e, seen) {
+					if !classifyIn(fn, e, seen) {
 						return false
 					}
 				}
@@ -881,7 +950,7 @@ func (s *c04Scan) elements(prog *ssa.Program) {
 						for _, ref := range *cell.Referrers() {
 							switch y := ref.(type) {
 							case *ssa.Store:
-								if y.Addr != ssa.Value(cell) || !classify(y.Val, seen) {
+								if y.Addr != ssa.Value(cell) || !classifyIn(fn, y.Val, seen) {
 									return false
 								}
 							case *ssa.UnOp, *ssa.DebugRef:
@@ -895,6 +964,7 @@ func (s *c04Scan) elements(prog *ssa.Program) {
 			}
 			return false
 		}
+		classify := func(v ssa.Value, seen map[ssa.Value]bool) bool { return classifyIn(fn, v, seen) }
 		for _, b := range fn.Blocks {
 			for _, ins := range b.Instrs {
 				r, ok := ins.(*ssa.Return)
@@ -919,6 +989,7 @@ func (s *c04Scan) elements(prog *ssa.Program) {
 			c.Discharge("R-C04-2", cons, c.Prog.Rel(fn.Pos()), sprintf("%d returns: %d element loads of the receiver's list, %d nil", rets, elems, nils))
 		}
 	}
+	s.recvParams, s.listParams = nil, nil
 }
 
 // ----------------------------------------------------------------------------------------
